@@ -131,6 +131,44 @@ theorem linear_solution_unique (xs ys : List ℚ) (o : Fit) (a b a' b' : ℚ)
   obtain ⟨ua, ub⟩ := unique2 (sXX (xs.zip ys)) (sX (xs.zip ys)) (sN (xs.zip ys)) (a - a') (b - b') hdet d0 d1
   exact ⟨(sub_eq_zero.mp ua).symm, (sub_eq_zero.mp ub).symm⟩
 
+/-- The quadratic fit is THE solution of its normal equations. -/
+theorem quadratic_solution_unique (xs ys : List ℚ) (o : Fit) (a b c a' b' c' : ℚ)
+    (hset : GenQ.CurveFitting.set [.list xs, .list ys] = .ok o) (hfit : quadratic_fitting o = .ok (a, b, c))
+    (k0 : S (xs.zip ys) (fun p => (p.2 - (a' * (p.1 * p.1) + b' * p.1 + c' * 1)) * (p.1 * p.1)) = 0)
+    (k1 : S (xs.zip ys) (fun p => (p.2 - (a' * (p.1 * p.1) + b' * p.1 + c' * 1)) * p.1) = 0)
+    (k2 : S (xs.zip ys) (fun p => (p.2 - (a' * (p.1 * p.1) + b' * p.1 + c' * 1)) * 1) = 0) :
+    a' = a ∧ b' = b ∧ c' = c := by
+  obtain ⟨h0, h1, h2⟩ := quadratic_normal_equations xs ys o a b c hset hfit
+  obtain ⟨rfl, hlen⟩ := set_two_lists_ok hset
+  obtain ⟨hd, _, _, _⟩ := quadratic_ok (ne_nil_of_two_le hlen) hfit
+  have hd0 := ne_zero_of_not_lt_TOL hd
+  refine unique_solution3 (xs.zip ys) (fun p => p.2) (fun p => p.1 * p.1) (fun p => p.1) (fun _ => 1)
+    a b c a' b' c' h0 h1 h2 k0 k1 k2 ?_
+  have e1 : S (xs.zip ys) (fun _ : ℚ × ℚ => (1 : ℚ) * 1) = sN (xs.zip ys) := by rw [S_const]; simp [sN]
+  have e2 : S (xs.zip ys) (fun p : ℚ × ℚ => p.1 * 1) = sX (xs.zip ys) := S_congr (fun p _ => mul_one _)
+  have e3 : S (xs.zip ys) (fun p : ℚ × ℚ => p.1 * p.1 * 1) = sXX (xs.zip ys) := S_congr (fun p _ => mul_one _)
+  rw [e1, e2, e3]
+  intro h; apply hd0; unfold sXX sXXX sXXXX at *; linear_combination h
+
+/-- The general fit with three present basis functions is THE solution of its normal equations. -/
+theorem general_solution_unique (pts : List (ℚ × ℚ)) (f0 f1 f2 : ℚ → ℚ) (a b c a' b' c' : ℚ)
+    (hfit : general_fitting (fit_of pts) f0 f1 f2 = .ok (a, b, c))
+    (hf1 : TOL ≤ |S pts (fun p => f1 p.1 * f1 p.1)|) (hf2 : TOL ≤ |S pts (fun p => f2 p.1 * f2 p.1)|)
+    (k0 : S pts (fun p => (p.2 - (a' * f0 p.1 + b' * f1 p.1 + c' * f2 p.1)) * f0 p.1) = 0)
+    (k1 : S pts (fun p => (p.2 - (a' * f0 p.1 + b' * f1 p.1 + c' * f2 p.1)) * f1 p.1) = 0)
+    (k2 : S pts (fun p => (p.2 - (a' * f0 p.1 + b' * f1 p.1 + c' * f2 p.1)) * f2 p.1) = 0) :
+    a' = a ∧ b' = b ∧ c' = c := by
+  obtain ⟨h0, h1, h2⟩ := general_normal_equations pts f0 f1 f2 a b c hfit
+  refine unique_solution3 pts (fun p => p.2) (fun p => f0 p.1) (fun p => f1 p.1) (fun p => f2 p.1)
+    a b c a' b' c' h0 (h1 hf1) (h2 hf2) k0 k1 k2 ?_
+  unfold general_fitting at hfit
+  rw [(fit_of_fields pts).1, (fit_of_fields pts).2.1, List.map_map, List.map_map, List.map_map] at hfit
+  rcases general_ok pts (fun p => f0 p.1) (fun p => f1 p.1) (fun p => f2 p.1) (fun p => p.2) hfit with
+    ⟨hr, _⟩ | ⟨ht, _⟩ | ⟨_, hd, _⟩
+  · exact absurd hr (not_lt.mpr hf1)
+  · exact absurd ht (not_lt.mpr hf2)
+  · exact ne_zero_of_not_lt_TOL hd
+
 /-! ### Exact recovery of noiseless data -/
 
 /-- Data lying exactly on a line `y = a0 x + b0` give back `(a0, b0)`. -/
